@@ -9,6 +9,7 @@ dtypes, or exception class) over all layouts must be a singleton.  Each layout i
 additionally checked for structural coherence (shape vs labels; values / iloc /
 row / column / element iteration / to_pairs agree cell by cell; dtypes).
 """
+import copy
 import itertools
 import pickle
 
@@ -161,7 +162,7 @@ def op_menu(n, m, kinds):
         ('iter_tuple(0)', lambda f: tuple(tuple(t) for t in f.iter_tuple(axis=0))), ('iter_tuple(1)', lambda f: tuple(tuple(t) for t in f.iter_tuple(axis=1))),
         ('iter_element', lambda f: tuple(f.iter_element())), ('iter_element_items', lambda f: tuple(f.iter_element_items())),
         ('to_pairs(0)', lambda f: f.to_pairs(0)), ('to_pairs(1)', lambda f: f.to_pairs(1)), ('items', lambda f: tuple((k, v) for k, v in f.items())),
-        ('pickle', lambda f: pickle.loads(pickle.dumps(f))), ('copy-eq', lambda f: f.equals(pickle.loads(pickle.dumps(f)), compare_dtype=True, compare_name=True)),
+        ('pickle', lambda f: pickle.loads(pickle.dumps(f))), ('deepcopy', lambda f: copy.deepcopy(f)), ('copy', lambda f: copy.copy(f)), ('copy-eq', lambda f: f.equals(pickle.loads(pickle.dumps(f)), compare_dtype=True, compare_name=True)),
         ('head(1)', lambda f: f.head(1)), ('tail(2)', lambda f: f.tail(2)), ('count(0)', lambda f: f.count(axis=0)), ('count(1)', lambda f: f.count(axis=1)),
         ('unique', lambda f: tuple(sorted(map(repr, f.unique().tolist())))), ('isin', lambda f: f.isin((1, 'x0', True))),
         ('eq-self', lambda f: f == f), ('eq-1', lambda f: f == 1), ('to_frame_go', lambda f: f.to_frame_go()), ('bool-not', lambda f: ~f.isna()),
@@ -209,6 +210,7 @@ def op_menu(n, m, kinds):
 
 PREOPS = [
     ('reverse-columns-twice', lambda f: f.iloc[:, ::-1].iloc[:, ::-1]),
+    ('column-list-selection-in-order', lambda f: f.iloc[:, list(range(f.shape[1]))]),
     ('concat-of-column-halves', lambda f: sf.Frame.from_concat((f.iloc[:, :1], f.iloc[:, 1:]), axis=1).rename(f.name) if f.shape[1] > 1 else f.iloc[:, :]),
     ('double-transpose', lambda f: f.T.T),
     ('assign-first-column-to-itself', lambda f: f.assign.iloc[:, 0](f.iloc[:, 0].values)),
@@ -321,7 +323,7 @@ def run_case(case, ctx):
     # non-initial states: the same content reached through another operation (whose result may be blocked differently under each layout) gets the
     # selection / update / iteration part of the menu again
     if 1 <= m <= 3 and n >= 1:     # (4-column frames get the first-level menu only: the derived-state pass costs 5x)
-        pre = PREOPS if run_case.tier != 'quick' else PREOPS[1:2]
+        pre = PREOPS if run_case.tier != 'quick' else PREOPS[1:3]
         for pname, pfn in pre:
             derived = []
             try:
@@ -332,9 +334,9 @@ def run_case(case, ctx):
             if len(set(repr(snap(d)) for _, d in derived)) != 1:
                 continue     # idem
             d0 = derived[0][1]
-            wanted = ('iloc[', 'assign.', 'drop.', 'mask.', 'astype', 'iter_', 'to_pairs', 'values', 'fillna', 'shift', 'roll', 'sort_', 'bloc', 'dropna', 'T')
+            wanted = ('iloc[', 'assign.', 'drop.', 'mask.', 'astype', 'iter_', 'to_pairs', 'values', 'fillna', 'shift', 'roll', 'sort_', 'bloc', 'dropna', 'T', 'deepcopy', 'pickle', 'copy')
             if run_case.tier == 'quick':
-                wanted = ('assign.', 'drop.', 'astype', 'fillna', 'bloc', 'values', 'iter_array')
+                wanted = ('assign.', 'drop.', 'astype', 'fillna', 'bloc', 'values', 'iter_array', 'deepcopy', 'pickle', 'copy')
             ops2 = [o for o in op_menu(d0.shape[0], d0.shape[1], kinds) if o[0].startswith(wanted)]
             for name, fn in ops2:
                 outs, objs = {}, {}
